@@ -18,6 +18,7 @@ type GenOpts struct {
 	Formatters         []string
 	ForceFileWriteRoot bool
 	FlatTemplateData   bool
+	DupNames           bool // reuse the same interface names in every package
 }
 
 var ifaceNames = []string{"Store", "Reader", "Fetcher", "Renderer", "Closer", "Sorter", "Codec", "Waiter", "Getter", "Putter", "Walker", "Mixer"}
@@ -86,10 +87,12 @@ func GenPackages(r *core.Rng, o GenOpts) []Pkg {
 			}
 			files[k%nFiles].Ifaces = append(files[k%nFiles].Ifaces, ifc)
 		}
-		files[0].Extra = "// Thing is a plain type other packages may refer to.\ntype Thing struct{ N int }\n"
+		files[0].Extra = "// Thing is a plain type other packages may refer to.\ntype Thing struct{ N int }\n\n// Thing2 and Thing3 are replace-type targets.\ntype Thing2 struct{ N int }\n\ntype Thing3 struct{ N int }\n"
 		pk.Files = files
 		pkgs = append(pkgs, pk)
-		nameIdx += nIf
+		if !o.DupNames {
+			nameIdx += nIf
+		}
 	}
 	return pkgs
 }
